@@ -193,7 +193,7 @@ class Sim:
         self.marker = self.steps
 
     # ------------------------------------------------------------ run
-    def run(self, main, wall=30.0):
+    def run(self, main, wall=150.0):
         t = self.spawn(main, "main", "work")
         self.current = t
         t.unpark()
@@ -686,7 +686,7 @@ import logging
 logging.getLogger("Rx").setLevel(logging.ERROR)
 
 
-def run_sim(body, seed, cps=(), record=False, spurious_p=0.0, drift_p=0.0, trace_extra=(), wall=30.0, max_steps=400000, setup=None):
+def run_sim(body, seed, cps=(), record=False, spurious_p=0.0, drift_p=0.0, trace_extra=(), wall=150.0, max_steps=400000, setup=None):
     """Run `body(sim, shim)` as the main workload thread under a fresh simulator with reactivex patched."""
     sim = Sim(seed, cps or (), record, spurious_p, drift_p, max_steps, trace_extra)
     shim = make_shim(sim)
